@@ -48,10 +48,15 @@ def gen_plan(seed, tier, index):
     npages = r.randint(1, 3)
     pages = [gen_page(r, 'pg%d' % k) for k in range(npages)]
     for p in pages:
+        if r.random() < 0.1:
+            p['dup_line'] = True
         for ln in p['lines']:
             ln['frames'] = r.randint(1, 40) if r.random() < 0.2 else ln['frames']
-            if r.random() < 0.1:
+            x = r.random()
+            if x < 0.1:
                 ln['range'] = 'extreme'
+            elif x < 0.2:
+                ln['range'] = 'logprob'
             if r.random() < 0.1:
                 ln['chars_variant'] = True
     ops = []
@@ -272,7 +277,7 @@ def execute(plan):
                     target.regions[-1].lines.append(extra)
                 pre = {}
                 for ln in target.lines_iterator():
-                    pre[ln.id] = (ln.logits, ln.characters, ln.logit_coords)
+                    pre[id(ln)] = (ln.logits, ln.characters, ln.logit_coords)
                 kind, blob = store_logits[pg]
                 try:
                     target.load_logits(blob)
@@ -288,7 +293,7 @@ def execute(plan):
                     if mdl is None or mdl == 'lost':
                         if mdl == 'lost':
                             res.probe('lost_entry_met')
-                        a, b, c = pre[ln.id]
+                        a, b, c = pre[id(ln)]
                         if ln.logits is not a or ln.characters is not b or ln.logit_coords is not c:
                             _v(res, 'load', 'absent-line-touched', 'line %s is not in the file but was modified by load_logits' % ln.id, k)
                             ok = False
